@@ -26,8 +26,10 @@ E = {
     'csa': ('const string[]', 'var'), 'sa': ('string[]', 'var'), 'sv is byte[]': ('const byte[]', 'var'),
     '[1, 2]': ('lit', ['5', '5']), '[bv, 1]': ('lit', ['bv', '5']), '[iv, bv]': ('lit', ['iv', 'bv']), '[iv, true]': ('lit', ['iv', 'true']),
     '[true, ov]': ('lit', ['true', 'ov']), '["a", sv]': ('lit', ['"s"', 'sv']), '[]': ('lit', []), "['a', 1]": ('lit', ["'c'", '5']), '[300, bv]': ('lit', ['300', 'bv']),
-    '[1, 2] is byte[]': ('locked', 'byte'), '[bv] is int[]': ('locked', 'int'),
+    '[1, 2] is byte[]': ('locked', 'byte'), '[bv] is int[]': ('locked', 'int'), '[] is byte[]': ('locked', 'byte'), '[] is int[]': ('locked', 'int'),
 }
+
+EMPTY_LOCKED = {'[] is byte[]', '[] is int[]'}
 
 # assignable places: text -> (type, is_const)
 LV = {'iv': ('int', False), 'bv': ('byte', False), 'ov': ('bool', False), 'sv': ('string', False), 'K': ('int', True), 'ia': ('int[]', True),
@@ -120,6 +122,8 @@ def cast_ok(e, t):
     if et == 'locked':
         if t == 'bool':
             return True
+        if e in EMPTY_LOCKED and t.endswith('[]'):
+            return True         # no element to convert: re-casting an empty literal is accepted for every element type
         return t.endswith('[]') and cast_scalar_ok(fl, t[:-2])
     if et.endswith('[]'):
         if t == 'bool':
